@@ -155,7 +155,7 @@ func checkChainOrder(x *Ctx, sc *chainScen, reqs []*ChainReq) {
 		if r.PanicAt != "" {
 			continue
 		}
-		if r.Target == "route" || r.Target == "post" || r.Target == "route2" {
+		if isRouted(r.Target) {
 			attrs, ctx, gen, params, sel, reaches := cfg.handlerSees(r)
 			if reaches {
 				got := fmt.Sprintf("attrs=%s ctx=%s gen=%s params=%s sel=%s", res.SawAttrs, res.SawCtx, res.SawGen, res.SawParams, res.SawSel)
